@@ -237,8 +237,13 @@ def execute(item, acc=None, only=None):
             viol.append(("unconstrained:interface-unusable", "Interface cannot describe a constraint-free network: %r" % exc, {"tpl": tname, "order": order, "tol": list(tol), "cols": []}, repr(exc), None))
             return viol
     for tag, col in pts:
-        for pos in range(T):
-            cols = embed(col, T, pos, zero)
+        combos = [(pos, zero) for pos in range(T)]
+        if T > 1:
+            # several loaded periods at once: the same column in every period, and a 0.7-scaled neighbour
+            combos.append((0, dict(col)))
+            combos.append((T - 1, {st: 0.7 * v for st, v in col.items()}))
+        for pos, filler in combos:
+            cols = embed(col, T, pos, filler)
             if only is not None and cols != only:
                 continue
             try:
